@@ -756,6 +756,14 @@ func TestC13Structured(t *testing.T) {
 				vn := w.ms.vn
 				w.V.Rtr.VerifExpireHello(w.P.IP())
 				_, _ = w.V.Rtr.HelloPing.Send(w.P.IP())
+				both := c.Chance("own-hello.peer-too", 1, 2)
+				if both {
+					// ... and so does the peer, before it has seen the victim's request.
+					if node := w.P; node != nil {
+						node.Rtr.VerifExpireHello(w.V.IP())
+						_, _ = node.Rtr.HelloPing.Send(w.V.IP())
+					}
+				}
 				var answers []*vnet.InFlight
 				for steps := 0; len(vn.Queue) > 0 && steps < 30; steps++ {
 					fl := vn.Drop(0)
@@ -766,6 +774,29 @@ func TestC13Structured(t *testing.T) {
 					if r := vn.Inject(fl.To, fl.Link, fl.Data); r.Panicked {
 						c.Fatalf("hello of the victim panicked %s: %v", fl.To.Name, vn.Panics)
 					}
+				}
+				if len(answers) >= 2 && c.Chance("own-hello.at-once", 1, 2) {
+					// Two of the peer's messages (its own request, its answer) reach the
+					// victim together and are handled by two workers, one of them held
+					// at a generated schedule point.
+					if at := core.OneOf(c, "own-hello.point", "", "instance.Identity", "instance.State", "instance.Config"); at == "" {
+						w.V.Gate.Arm(c.Int("own-hello.any-call", 0, 12))
+					} else {
+						w.V.Gate.ArmAt(at, c.Int("own-hello.call", 0, 4))
+					}
+					i := c.Pick("own-hello.first", len(answers))
+					j := c.Pick("own-hello.second", len(answers)-1)
+					if j >= i {
+						j++
+					}
+					res, _, ok := vn.InjectPar(w.V, []*vnet.VLink{answers[i].Link, answers[j].Link}, [][]byte{answers[i].Data, answers[j].Data})
+					if res.Panicked {
+						c.Fatalf("two key-setup messages of the peer handled by two workers of the victim at once (held at %q, %s) panicked a worker: %v", w.V.Gate.Point, w.V.Gate.Stack, vn.Panics)
+					}
+					if !ok {
+						c.Fatalf("two key-setup messages of the peer handled at once: the workers of the victim did not finish (held at %q)", w.V.Gate.Point)
+					}
+					c.Class("structured/key-setup-messages-handled-at-once")
 				}
 				copies := c.Int("own-hello.copies", 1, 3)
 				for _, fl := range answers {
